@@ -585,12 +585,12 @@ func checkHistory(ctx *pbt.Ctx, c HistCase) error {
 	}
 	s.tx = ref.ToLib(s.m)
 	s.fq = ref.FeeQuoteToLib(c.Quote)
-	lim := new(big.Int).Lsh(big.NewInt(1), 62)
+	// satoshi amounts are uint64: every amount is in the domain as long as neither total overflows
 	inDomain := func() bool {
-		return ref.FeeSumIn(s.m).Cmp(lim) <= 0 && ref.FeeSumOut(s.m).Cmp(lim) <= 0 && !ref.Ambiguous(s.m)
+		return ref.FeeSumIn(s.m).IsUint64() && ref.FeeSumOut(s.m).IsUint64() && !ref.Ambiguous(s.m)
 	}
 	if !inDomain() {
-		ctx.Discard("totals too large")
+		ctx.Discard("a total overflows uint64")
 		return nil
 	}
 	ctx.Labelf("steps=%d", len(c.Ops))
@@ -622,7 +622,7 @@ func checkHistory(ctx *pbt.Ctx, c HistCase) error {
 			}
 		}
 		if !inDomain() {
-			ctx.Discard("history leaves the domain (totals / ambiguous shape)")
+			ctx.Discard("history leaves the domain (a total overflows uint64 / ambiguous shape)")
 			return nil
 		}
 		cur, est, err := s.hAnswers(op.Q)
@@ -665,6 +665,9 @@ func checkHistory(ctx *pbt.Ctx, c HistCase) error {
 		}
 		if s.q != prevQ {
 			lab("quote-updated")
+		}
+		if two63 := new(big.Int).Lsh(big.NewInt(1), 63); ref.FeeSumIn(s.m).Cmp(two63) >= 0 || ref.FeeSumOut(s.m).Cmp(two63) >= 0 {
+			lab("amounts>=2^63")
 		}
 		prev, prevQ, prevM, prevFlags, prevMax = cur, s.q, s.m, flags, hMaxScript(s.m)
 		if est != "not-queried" {
@@ -754,6 +757,10 @@ func genHOp(t *rapid.T, nin, nout int) HOp {
 		op.U64 = rapid.SampledFrom([]uint64{0, 1, 2, 100, 1000, 100000, 1000000000000}).Draw(t, "amount")
 		if rapid.Bool().Draw(t, "any_amount") {
 			op.U64 = rapid.Uint64Range(0, 2000000).Draw(t, "amount_v")
+		}
+		if rapid.IntRange(0, 4).Draw(t, "huge_amount") == 3 { // upper half of the uint64 range
+			v, _ := genHugeAmount(t, "huge_v")
+			op.U64 = min(v, maxU64-1<<44)
 		}
 	case "addout":
 		op.B = genHScript(t, "addout")
